@@ -394,10 +394,12 @@ theorem totInv_g (env : Env) (ho : OracleOrdinary env) (f : Nat) (ih : TotInv en
             split at h
             · rename_i s p
               simp only [blen] at l2
-              simp only [R.res_bind, R.res_lift, bind_eq_error] at h
+              simp only [R.res_bind, R.res_lift, bind_eq_error, R.res_reparse] at h
               rcases h with h | ⟨_, _, h⟩
               · exact ho.2 _ _ _ _ h
-              · rcases h with h | ⟨⟨der, t1⟩, h4, h⟩
+              · rcases h with h | ⟨_, _, h⟩
+                · simp at h
+                rcases h with h | ⟨⟨der, t1⟩, h4, h⟩
                 · try dsimp only at h
                   exact ih.c _ _ (by omega) h
                 · try dsimp only at h
